@@ -3,6 +3,7 @@ import copy
 
 import networkx as nx
 
+from . import gen
 from .gen import decode_node, fresh
 from .model import Ref
 
@@ -52,11 +53,11 @@ def apply_model(model, nodes, op, on_element=None):
     where new_instants is a list of (key, set) per applied element."""
     k = op[0]
     if k == 'node':
-        model.add_node(nodes[op[1]], op[2])
+        model.add_node(nodes[op[1]], gen.decode_attrs(op[2]))
         return 'ok', 0, []
     if k == 'nodes_from':
         for i in op[1]:
-            model.add_node(nodes[i], op[2])
+            model.add_node(nodes[i], gen.decode_attrs(op[2]))
         return 'ok', 0, []
     if k == 'add_from_not':
         return 'NetworkXError', 0, []
@@ -140,9 +141,9 @@ def call_real(G, nodes, op):
             for (u, v, t, e) in elements(op, nodes):
                 G.add_interaction(u, v, t)
         elif k == 'node':
-            G.add_node(nodes[op[1]], **copy.deepcopy(op[2]))
+            G.add_node(nodes[op[1]], **gen.decode_attrs(op[2]))
         elif k == 'nodes_from':
-            G.add_nodes_from([nodes[i] for i in op[1]], **copy.deepcopy(op[2]))
+            G.add_nodes_from([nodes[i] for i in op[1]], **gen.decode_attrs(op[2]))
         elif k == 'add_not':
             G.add_interaction(nodes[op[1]], nodes[op[2]])
         elif k == 'add_from_not':
